@@ -30,11 +30,12 @@ PROP = 'C20'
 def check_export(ctx: Ctx, c: dict, where: str) -> bool:
     m, lg = c['model'], c['logic']
     found = False
-    for tail, what, detail in M.export_oracle(m, lg)[:8]:
+    for tail, what, detail in M.export_oracle(m, lg, late_access=bool(c.get('late_access')))[:8]:
         key = f'C20:{tail}:{lg}'
         ctx.fail(key, f'{lg} ({where}): {what}', dict(logic=lg, program=c.get('prog'), argument=c.get('argument'), nodes=c.get('nodes'),
                                                      ops=c.get('ops'), oracle='export vs value_of on the real model', **detail))
-        found = True
+        # known findings are reproduced by the mirror: they do not explain a disagreement with it
+        found = found or ctx.match_known(key) is None
     return found
 
 
@@ -150,20 +151,24 @@ def run(ctx: Ctx):
 
 
 def replay(data: dict) -> int:
+    """re-run a recorded program against the export oracle only (no Lean, no driver)"""
     r = data.get('replay', {})
     lg = r.get('logic')
-    print(json.dumps(dict(key=data.get('key'), what=data.get('what')), indent=1))
+    print(json.dumps(dict(key=data.get('key'), what=data.get('what')), indent=1, ensure_ascii=False))
     ops = r.get('ops')
     if not lg or not ops:
-        print('nothing to re-run for this entry (see the recorded detail)')
+        print('nothing to re-run for this entry (see the recorded detail: argument / nodes)')
         return 0
-    m = registry(lg).Model()
-    for t in ops:
-        op = M.dec_op(t)
-        print(M.op_text(op), '->', M.apply_op(m, op))
+    prog = [M.dec_op(t) for t in ops]
+    c = M.run_program(lg, prog, [], 'replay')
+    for t, o in zip(c['prog'], c['outcomes']):
+        print(t, '->', o)
+    m = c['model']
     bad = 0
     if m.finished:
-        for tail, what, _ in M.export_oracle(m, lg):
+        print('export:', M.data_dump(m))
+        print('model :', M.racc_dump(m))
+        for tail, what, _ in M.export_oracle(m, lg, late_access=bool(c.get('late_access'))):
             print('FAILS', tail, what)
             bad = 1
     return bad
